@@ -9,6 +9,7 @@ CONSTANTS
   ResetMax = 1
   ErrorResetMax = 1
   LazyClient = FALSE
+  OldPushBugs = FALSE
   OldIdleCheck = FALSE
   NPeer = 2
   NAppX = 1
@@ -33,8 +34,8 @@ INVARIANT InvC04
 INVARIANT InvC05
 INVARIANT InvC09
 INVARIANT InvC09known
-INVARIANT InvIdleKnown
+INVARIANT InvIdle
 INVARIANT InvDropped
-INVARIANT InvC18known
+INVARIANT InvC18
 INVARIANT InvC18bound
 CHECK_DEADLOCK FALSE
